@@ -26,7 +26,7 @@ type trackedTrip struct {
 }
 
 func (g *gen) history(nFeeds, nTrips int) []*gtfs.Realtime {
-	stopsPool := []string{"L01", "L02", "L03", "L05", "L06", "L08", "L10", "L11", "A27N", "A27S", "M11N", "R20", "", "X"}
+	stopsPool := []string{"L01", "L02", "L03", "L05", "L06", "L08", "L10", "L11", "A27N", "A27S", "M11N", "R16N", "r16n", "R20", "", "X"} // R16N / r16n: different stops
 	var pool []*trackedTrip
 	for i := 0; i < nTrips; i++ {
 		origin := g.r.Intn(144000)
@@ -43,7 +43,7 @@ func (g *gen) history(nFeeds, nTrips int) []*gtfs.Realtime {
 		}
 		n := 2 + g.r.Intn(7)
 		for j := 0; j < n; j++ {
-			tt.route = append(tt.route, g.pick(stopsPool[:11]))
+			tt.route = append(tt.route, g.pick(stopsPool[:13]))
 		}
 		if g.coin(0.15) { // repeated stop
 			tt.route = append(tt.route, tt.route[g.r.Intn(len(tt.route))])
@@ -85,11 +85,11 @@ func (g *gen) history(nFeeds, nTrips int) []*gtfs.Realtime {
 					tt.pos++
 				}
 			case 3:
-				tt.route = append(tt.route, g.pick(stopsPool[:11])) // grows at the back
+				tt.route = append(tt.route, g.pick(stopsPool[:13])) // grows at the back
 			case 4: // rerouted mid-trip
 				if tt.pos < len(tt.route) {
 					k := tt.pos + g.r.Intn(len(tt.route)-tt.pos)
-					tt.route = append(append([]string{}, tt.route[:k]...), g.pick(stopsPool), g.pick(stopsPool[:11]))
+					tt.route = append(append([]string{}, tt.route[:k]...), g.pick(stopsPool), g.pick(stopsPool[:13]))
 				}
 			case 5:
 				if g.coin(0.3) && tt.pos > 0 {
@@ -444,6 +444,44 @@ func describeHistory(feeds []*gtfs.Realtime) []string {
 	return out
 }
 
+// assignEarly: a copy of the history in which every mention of a trip before the first feed that shows it with a vehicle
+// carries that vehicle; nil when nothing changes
+func assignEarly(feeds []*gtfs.Realtime) []*gtfs.Realtime {
+	first := map[string]*gtfs.Vehicle{}
+	for _, f := range feeds {
+		for i := range f.Trips {
+			u := &f.Trips[i]
+			if len(u.ID.ID) >= 6 && u.Vehicle != nil && first[uidOf(u)] == nil {
+				first[uidOf(u)] = u.Vehicle
+			}
+		}
+	}
+	changed := false
+	seen := map[string]bool{}
+	var out []*gtfs.Realtime
+	for _, f := range feeds {
+		c := *f
+		c.Trips = append([]gtfs.Trip{}, f.Trips...)
+		for i := range c.Trips {
+			u := &c.Trips[i]
+			if len(u.ID.ID) < 6 {
+				continue
+			}
+			k := uidOf(u)
+			if u.Vehicle != nil {
+				seen[k] = true
+			} else if !seen[k] && first[k] != nil {
+				u.Vehicle = first[k]
+				changed = true
+			}
+		}
+		out = append(out, &c)
+	}
+	if !changed {
+		return nil
+	}
+	return out
+}
 func engineJournal(ctx *engineCtx) {
 	g := &gen{r: ctx.rng}
 	nHist := 150
@@ -562,6 +600,19 @@ func engineJournal(ctx *engineCtx) {
 				}
 			}
 			winCases = append(winCases, cPair(cPair(cNanos(w[0]), cNanos(w[1])), cJournal(j)))
+		}
+		// assignment decides visibility and the unassigned-update rule, nothing else: give every mention of a trip BEFORE its first
+		// vehicle that vehicle, and the final journal must be the same (stop lists, marks, counters, times)
+		if ctx.prop != "C14" {
+			if early := assignEarly(feeds); early != nil {
+				j0, r0 := buildJournalGuarded(feeds, far0, far1)
+				j1, r1 := buildJournalGuarded(early, far0, far1)
+				ctx.evaluations++
+				if !r0.panicked && !r0.hung && !r1.panicked && !r1.hung && cJournal(j0) != cJournal(j1) {
+					ctx.violate("c15-assignment-only-decides-visibility", "the journal differs from the journal of the same history in which the trips carry their (later) vehicle from their first mention on: "+firstDiff(cJournal(j0), cJournal(j1)),
+						map[string]any{"history": describeHistory(feeds), "history_with_early_vehicles": describeHistory(early)})
+				}
+			}
 		}
 		if nontrivial {
 			ctx.nontrivial++
